@@ -45,6 +45,9 @@ class C14Scenario(ChangeScenario):
         own_rv: dict[tuple[str, str], tuple[int, float]] = {}
         stale_after_timeout: set[tuple[str, str]] = set()
         delivered_at: dict[tuple[str, int], float] = {}
+        invoked: dict[tuple[str, str], dict[str, str]] = {}    # (process, uid) -> resume handler -> its latest outcome
+        names: dict[str, str] = {}
+        lost_open_write: set[tuple[str, str]] = set()
         for t, k, p in env.obs:
             if k == 'srv' and p.get('rid') in post_rv and p['verb'] in ('serve', 'respond'):
                 oname = p['path'].rstrip('/').split('/')[-1 if not p['path'].endswith('/status') else -2]
@@ -59,14 +62,29 @@ class C14Scenario(ChangeScenario):
                 # (only if the echo really was outstanding all that time: a newer view that HAS arrived must be taken)
                 if int(p['rv']) < rv_own and t >= t_own + timeout - 1e-9 and (echo_at is None or echo_at >= t):
                     stale_after_timeout.add((p['op'], p['uid']))
+            if k == 'srv' and p.get('fault') and p.get('method') == 'patch':
+                # a PATCH the server rejected (injected): what it carried is lost. If it was NOT the write that closes the resume cycle (some resume
+                # handler invoked so far is still unfinished), the finished ones are bound to run again (their records were in that write) - as
+                # after any lost write; if it WAS the closing one, the process knows that it has resumed the object, record or no record.
+                oname = p['path'].rstrip('/').split('/')[-1 if not p['path'].endswith('/status') else -2]
+                req = next((r for r in env.world.requests if r.rid == p.get('rid')), None)
+                anns = (((req.payload if req is not None and isinstance(req.payload, dict) else {}) or {}).get('metadata') or {}).get('annotations') or {}
+                from kv.harness.change import LAST_HANDLED, TOUCH
+                stores_progress = any(v is not None and k2.startswith('kopf.zalando.org/') and k2 not in (LAST_HANDLED, TOUCH) and not k2.endswith('kopf-managed')
+                                      for k2, v in anns.items())      # a closing write only removes progress records
+                for (op2, uid2), outcomes in invoked.items():
+                    if op2 == p['op'] and names.get(uid2) == oname and (stores_progress or not all(o in ('ok', 'perm') for o in outcomes.values())):
+                        lost_open_write.add((op2, uid2))
             if k == 'call' and p['id'] in resume:
+                invoked.setdefault((p['op'], p['uid']), {})[p['id']] = p['outcome'].split(',')[0].split('~')[0]
+                names[p['uid']] = p['name']
                 if p['deleting'] and not resume[p['id']].get('deleted'):
                     out.append(self.viol(env, 'resume-on-deleting', f"t={t}: resume handler {p['id']} ran on an object marked for deletion without opting in",
                                          clause='deleted'))
                 if p['outcome'].split(',')[0] == 'ok':
                     succ.setdefault((p['op'], p['uid'], p['id']), []).append(t)
         for (op, uid, hid), times in succ.items():
-            if len(times) > 1 and (op, uid) not in stale_after_timeout:
+            if len(times) > 1 and (op, uid) not in stale_after_timeout and (op, uid) not in lost_open_write:
                 out.append(self.viol(env, 'resumed-twice', f"resume handler {hid} succeeded {len(times)} times for object {uid} in process {op}: at {times}",
                                      clause='once'))
         # objects first seen through the watch in a process: no resume at all in that process
@@ -180,10 +198,15 @@ def run(tier: str, seed: int) -> CheckResult:
     hist += [build(h, sp, sc, late_b=False, bare=True, delays=False, early_user=False, time_dev=False)
              for h in histories(2) for sp in (1.0, 8.0) for sc in script_sets[:2]]
     timing = [build(h, 2.0, script_sets[0], late_b=False, kills=True) for h in histories(1 if tier == 'quick' else 2)]
+    # one PATCH of the new process is rejected by the server (500) - every one in turn -, then the history goes on: a rejected write that
+    # was to close the resume cycle does not make the process resume the object again
+    faulty = [build(h, sp, sc, late_b=False, faults=['500'], max_faults=1, delays=False, early_user=False, time_dev=False)
+              for h in ([('relist',)], [('spec', 'a', 2)], [('reconnect',), ('status', 'a', 7)], [('status', 'a', 7), ('relist',)])
+              for sp in (8.0, 20.0) for sc in script_sets[:2]]
     if tier == 'quick':
-        groups = [('histories', hist, 0, 60.0), ('timing+kills', timing, 1, 40.0)]
+        groups = [('histories', hist, 0, 60.0), ('timing+kills', timing, 1, 40.0), ('a-rejected-write', faulty, 1, 30.0)]
     else:
-        groups = [('histories', hist, 0, 600.0), ('timing+kills', timing, 2, 600.0)]
+        groups = [('histories', hist, 0, 600.0), ('timing+kills', timing, 2, 600.0), ('a-rejected-write', faulty, 2, 300.0)]
     stats, viols, info, nscen = run_groups(groups, seed=seed)
     return CheckResult(
         prop='C14', tier=tier, seed=seed, stats=stats, violations=viols, scenarios=nscen,
